@@ -11,6 +11,7 @@
 import Hg.Proofs.TreeLaws3
 import Hg.Props.Examples
 import Hg.Proofs.CountTLaws
+import Hg.Proofs.NpPartition
 
 namespace Hg.C01
 
@@ -73,6 +74,20 @@ open Hg.Ex in
 #guard decide (reduce ([s1, s2].map (fillAll z)) (.node (.leaf 1) (.leaf 0)) = some (fillAll z (s1 ++ s2)))
 open Hg.Ex in
 example : (Sched.node (.leaf 1) (.leaf 0)).leaves.Perm (List.range [s1, s2].length) := by decide
+
+/-- **partition invariance with vectorised chunk fills** (with C03): every chunk is filled into an empty copy of the tree
+by ONE `fill.numpy` call with its own weight vector, the partial results are combined with `+` in any order and
+grouping; the result is the record-by-record fill of the whole dataset, up to zero-weight sparse bins.  Per chunk the
+hypotheses are those of C03 `fillNp_eq_rows`. -/
+theorem np_partition_invariant (z : Agg) (chunks : List NpChunk) (σ : Sched)
+    (hz : isZeroTree z = true) (hg : good z = true) (ht : hasTmpl z = true) (hn : noBins z = true)
+    (hc : ∀ c ∈ chunks, c.1.length = c.2.length ∧ nonNegW c.2 = true ∧ goodRun z c.stream = true ∧
+        noNanForSums z c.1 = true ∧ qtysOk z c.1 = true)
+    (hrun : goodRun z (chunks.map NpChunk.stream).flatten = true)
+    (hσ : σ.leaves.Perm (List.range chunks.length)) :
+    ∃ parts, chunks.mapM (fun c => fillNp z c.1 c.2) = some parts ∧
+      (reduce parts σ).map prune = some (prune (fillAll z (chunks.map NpChunk.stream).flatten)) :=
+  Hg.np_partition_invariant z chunks σ hz hg ht hn hc hrun hσ
 
 /-- partition invariance for a Count with **any** weight transform `f` (`Hg.Model.CountT`; the tree model has identity
 Counts only): every partition into chunks, every order and grouping of `+` -/
